@@ -613,6 +613,46 @@ def rule_x17(text, log):
     return head2 + body[0] + "\n" + "\n".join(lets) + body[1:]
 
 
+def rule_x18(text, log, names):
+    """X18: scalar replacement of a local array whose every access uses a literal index (`vs[12]` -> `vs_12`, the declaration
+    `let mut vs: [T; N] = [0; N];` -> N scalar declarations, `vs[a..b].copy_from_slice(e)` -> element assignments from `e[k - a]`).
+    Any other use of the array makes the rule inapplicable (LostAnchor).  The transformation is the classic scalar replacement
+    of aggregates; it is applied because the solver's cost on long chains of writes through one array is quadratic."""
+    t = text
+    for name in names:
+        m = mask(t)
+        dm = re.search(r'let\s+mut\s+' + re.escape(name) + r'\s*:\s*\[\s*([A-Za-z0-9_]+)\s*;\s*(\d+)\s*\]\s*=\s*\[\s*0\s*;\s*\d+\s*\]\s*;', m)
+        if not dm:
+            raise LostAnchor("x18: declaration of %s not in the expected form" % name)
+        ty, n = dm.group(1), int(dm.group(2))
+        decl = " ".join('let mut %s_%d: %s = 0;' % (name, k, ty) for k in range(n))
+        t = t[:dm.start()] + decl + t[dm.end():]
+        # range copies
+        while True:
+            m = mask(t)
+            cm = re.search(re.escape(name) + r'\[\s*(\d+)\s*\.\.\s*(\d+)\s*\]\s*\.copy_from_slice\(', m)
+            if not cm:
+                break
+            close = match_close(m, cm.end() - 1)
+            arg = t[cm.end():close].strip()
+            if arg.startswith('&'):
+                arg = arg[1:].strip()
+            a, b = int(cm.group(1)), int(cm.group(2))
+            semi = m.index(';', close)
+            rep = " ".join('%s_%d = %s[%d];' % (name, k, arg, k - a) for k in range(a, b))
+            t = t[:cm.start()] + rep + t[semi + 1:]
+        cnt = [0]
+
+        def idx(mm):
+            cnt[0] += 1
+            return '%s_%s' % (name, mm.group(1))
+        t = re.sub(r'(?<![A-Za-z0-9_])' + re.escape(name) + r'\[\s*(\d+)\s*\]', idx, t)
+        if re.search(r'(?<![A-Za-z0-9_])' + re.escape(name) + r'(?![A-Za-z0-9_])', mask(t)):
+            raise LostAnchor("x18: %s is used other than through literal indices" % name)
+        log.append({'rule': 'X18', 'before': 'array local %s: [%s; %d]' % (name, ty, n), 'after': '%d scalar locals, %d indexed uses rewritten' % (n, cnt[0])})
+    return t
+
+
 def rule_x13(text, log):
     """by-value `mut self` (rejected by Verus 0.2026.09.13): the parameter is written `self` and moved into a mutable local
     that the body uses instead: `fn f(mut self) { B }` -> `fn f(self) { let mut __self = self; B[self := __self] }`"""
@@ -893,6 +933,8 @@ def apply_rules(text, flags, log, path):
         text = rule_x15(text, mylog)
     if 'x17' in flags:
         text = rule_x17(text, mylog)
+    if 'x18' in flags:
+        text = rule_x18(text, mylog, flags['x18'].split(','))
     if 'x10' in flags:
         v = flags['x10']
         text = rule_x10(text, mylog, v if isinstance(v, str) else None)
